@@ -3,6 +3,7 @@ from a database-ordered source (two structural clauses)."""
 from __future__ import annotations
 
 import ast
+import re
 
 from ..core.ordertaint import OrderAnalysis
 from ..core.pyfacts import PyRepo
@@ -265,6 +266,33 @@ def database_ordered(fn: ast.FunctionDef, it):
     return None, 'unrecognised source expression'
 
 
+def label_tokens(ctx, py: PyRepo, fn):
+    """labels are registered under consecutive numbers; an empty token registered as a label shifts every number after it.
+    `text.split(sep)` with an explicit separator yields [''] for empty text (and '' between doubled separators) - unlike
+    `text.split()` - so a label list read that way must filter empty tokens (the empty list `( )` is a legal label list)."""
+    n = 0
+    for loop in [x for x in ast.walk(fn) if isinstance(x, ast.For)]:
+        it = loop.iter
+        while isinstance(it, ast.Call) and isinstance(it.func, ast.Name) and it.func.id in ('list', 'tuple', 'enumerate', 'iter') and it.args:
+            it = it.args[0]
+        if not (isinstance(it, ast.Call) and isinstance(it.func, ast.Attribute) and it.func.attr in ('split', 'rsplit')):
+            continue
+        explicit_sep = bool(it.args) and not (isinstance(it.args[0], ast.Constant) and it.args[0].value is None)
+        tgt = loop.target.elts[-1] if isinstance(loop.target, ast.Tuple) else loop.target
+        if not isinstance(tgt, ast.Name):
+            continue
+        stores = [s for s in ast.walk(loop) if isinstance(s, ast.Assign) and isinstance(s.targets[0], ast.Subscript)
+                  and isinstance(s.value, ast.Name) and s.value.id == tgt.id]
+        if not stores:
+            continue
+        n += 1
+        guarded = any(isinstance(g, ast.If) and re.search(rf'\b(not )?{tgt.id}\b', ast.unparse(g.test)) for g in ast.walk(loop))
+        ctx.ob('label-tokens', f'split@{loop.lineno - fn.lineno}', (not explicit_sep) or guarded,
+               f'labels are registered from `{ast.unparse(it)[:60]}`: with an explicit separator an empty label list yields the token \'\' '
+               f'which is registered as a label, so the first marked step gets the wrong number', py.where('metamath.converter.converter', loop))
+    ctx.ob('label-tokens', 'scan', True, f'{n} label loops over split() examined', '')
+
+
 def run(ctx):
     py = PyRepo.get()
     ci = py.cls('MetamathConverter')
@@ -279,6 +307,10 @@ def run(ctx):
                  for n in ast.walk(init))
     ctx.ob('hypothesis-order', 'ordered-source-is-a-list', ann_ok,
            f'self.{ORDERED_ATTR} must be a list (insertion = database order)', py.where('metamath.converter.converter', init))
+    label_tokens(ctx, py, fn)
+    # where the numbers past the label list are resolved: the k-th Z opens the k-th slot, number n reloads slot n - len(labels) - 1
+    from .c16 import memory_map_standalone
+    memory_map_standalone(ctx, py)
     ctx.floor('digit-table', 2)
     ctx.floor('hypothesis-order', 3)
     ctx.floor('digit-order', 2)
